@@ -94,19 +94,11 @@ Qed.
 
 (** *** the network stop reaches every unfinished client call
 
-    [sitem_ok] does not forbid a client call ([VCall]) after the closer's network stop ([VShNet]); the real server has closed
-    its listeners and connections by then. Under [sitem_ok] alone [T_C11_waiters_fail] and [T_C11_no_hang] are false of the
-    model (a Lock call issued after the network stop parks uncancelled: [C11_waiters_fail_needs_net] below), so they are
-    proved for the schedules in which no call arrives once the network stop has run: [vreach_net]. *)
-Definition net_open (s : svstate) : Prop :=
-  ∀ tid t, v_thr s !! tid = Some t → st_op t = SShutdown → st_pc t = VShFlag ∨ st_pc t = VShNet.
-Definition sitem_ok_net (s : svstate) (it : sitem) : Prop :=
-  sitem_ok s it ∧ match it with VCall _ _ => net_open s | _ => True end.
-Inductive vreach_net (cfg : svcfg) : svstate → Prop :=
-| vreach_net_init : vreach_net cfg sv_init
-| vreach_net_step s it : vreach_net cfg s → sitem_ok_net s it → vreach_net cfg (vstep cfg s it).
-Lemma vreach_net_vreach cfg s : vreach_net cfg s → vreach cfg s.
-Proof. induction 1 as [|s it _ IH [Hok _]]; [constructor|by constructor]. Qed.
+    [sitem_ok] admits a client call ([VCall]) only while the network is up ([net_open]: the closer has not yet run its
+    network stop; the real server has closed its listeners and connections by then), so after the network stop every
+    unfinished client call has a cancelled context. *)
+Lemma call_net_open s tid op : client_op op = true → sitem_ok s (VCall tid op) → net_open s.
+Proof. destruct op; simpl; try done; tauto. Qed.
 
 Definition net_stopped (s : svstate) : Prop :=
   ∃ tid t, v_thr s !! tid = Some t ∧ st_op t = SShutdown ∧ (st_pc t = VShTimers ∨ st_pc t = VShMgr ∨ st_pc t = VEnd).
@@ -118,10 +110,10 @@ Proof. destruct pc; simpl; try done; naive_solver. Qed.
 Lemma net_cancel_cancelled t : client_op (st_op t) = true → is_fin (st_pc (net_cancel t)) = true ∨ st_cancel (net_cancel t) ≠ None.
 Proof. destruct t as [op pc cn]. unfold net_cancel. simpl. destruct op, cn, (is_fin pc) eqn:E; simpl; auto; done. Qed.
 
-Lemma net_stop_cancels : T_svinv_reach → ∀ cfg s, vreach_net cfg s → net_stopped s → all_cancelled s.
+Lemma net_stop_cancels : T_svinv_reach → ∀ cfg s, vreach cfg s → net_stopped s → all_cancelled s.
 Proof.
-  intros HI cfg s Hr. induction Hr as [|s it Hr IH [Hok Hnet]]; [by intros (? & ? & ? & _)|].
-  pose proof (HI _ _ (vreach_net_vreach _ _ Hr)) as I.
+  intros HI cfg s Hr. induction Hr as [|s it Hr IH Hok]; [by intros (? & ? & ? & _)|].
+  pose proof (HI _ _ Hr) as I.
   intros (tc & c' & Hc' & Hcop & Hcpc).
   (* the closer before the step *)
   destruct (thr_step _ _ _ _ _ I Hc') as [(c & Hc & Hop' & Hfin & Hcn & Hpc')|(_ & E & _)]; [|rewrite E, Hcop in Hcpc; simpl in Hcpc; naive_solver].
@@ -140,6 +132,7 @@ Proof.
       * left. by rewrite (Hfint Hf).
       * right. destruct (st_cancel t) as [e|] eqn:Ee; [|done]. by rewrite (Hcnt e eq_refl).
     + exfalso. destruct Hnew as [->|[(sid & -> & Eo)|[[-> Eo]|[(dt & id & -> & Eo)|(? & ? & sid & ? & ? & ? & ? & Eo)]]]]; try (rewrite Eo in Hcl; done).
+      pose proof (call_net_open _ _ _ Hcl Hok) as Hnet.
       destruct Hst as (tc0 & c0 & Hc0 & Hc0op & Hc0pc). destruct (Hnet _ _ Hc0 Hc0op) as [E'|E']; rewrite E' in Hc0pc; naive_solver.
   - intros tid' t' Ht' Hcl. destruct c as [op pc cn]. simpl in *. subst.
     rewrite (vstep_run _ _ _ _ (vi_not_crashed _ _ I) Hc), run_shnet, thr_vset_pc in Ht'.
@@ -149,19 +142,10 @@ Proof.
       apply net_cancel_cancelled. by destruct t as [[] ? []].
 Qed.
 
-(** T_C11_waiters_fail / T_C11_no_hang with [vreach_net] for [vreach] (the only change) *)
-Definition T_C11_waiters_fail' : Prop := ∀ cfg s tid t,
-  vreach_net cfg s → v_thr s !! tid = Some t → st_pc t = VWait →
-  (∃ tid' t', v_thr s !! tid' = Some t' ∧ st_op t' = SShutdown ∧ (st_pc t' = VShTimers ∨ st_pc t' = VShMgr ∨ st_pc t' = VEnd)) →
-  ∃ e, st_cancel t = Some e ∧ ∃ t'', v_thr (vstep cfg s (VRun tid)) !! tid = Some t'' ∧ st_pc t'' = VFin (SResp false (Some e)).
-Definition T_C11_no_hang' : Prop := ∀ cfg s tid t,
-  vreach_net cfg s → v_thr s !! tid = Some t → st_op t = SShutdown → st_pc t = VShMgr → sv_blocked s tid = true →
-  ∃ tid' t', v_thr s !! tid' = Some t' ∧ (st_pc t' = VWait ∨ st_pc t' = VWoken) ∧ sv_blocked s tid' = false.
-
-Theorem C11_waiters_fail_from_inv : T_svinv_reach → T_C11_waiters_fail'.
+Theorem C11_waiters_fail_from_inv : T_svinv_reach → T_C11_waiters_fail.
 Proof.
   intros HI cfg s tid t Hr Ht Hpc Hst.
-  pose proof (vreach_net_vreach _ _ Hr) as Hr'. pose proof (HI _ _ Hr') as I.
+  pose proof Hr as Hr'. pose proof (HI _ _ Hr') as I.
   destruct (parked_ok_reach HI _ _ Hr' _ _ Ht (or_introl Hpc)) as (sid & n & k & z & lt & Hop & a & Ha).
   destruct (net_stop_cancels HI _ _ Hr Hst _ _ Ht) as [Hf|Hc]; [by rewrite Hop|by rewrite Hpc in Hf|].
   destruct (st_cancel t) as [e|] eqn:Hcn; [|done]. exists e. split; [done|].
@@ -170,14 +154,14 @@ Proof.
   eexists. split; [done|]. done.
 Qed.
 
-Theorem C11_no_hang_from_inv : T_svinv_reach → T_C11_no_hang'.
+Theorem C11_no_hang_from_inv : T_svinv_reach → T_C11_no_hang.
 Proof.
   intros HI cfg s tid t Hr Ht Hop Hpc Hb.
   unfold sv_blocked in Hb. rewrite Ht, Hpc in Hb. apply existsb_exists in Hb as ([tid' t'] & Hin & Hp).
   apply elem_of_list_In, elem_of_map_to_list in Hin. exists tid', t'. split; [done|].
   apply orb_prop in Hp. split; [destruct Hp as [Hp|Hp]; apply bool_decide_eq_true in Hp; auto|].
   unfold sv_blocked. rewrite Hin. destruct Hp as [Hp|Hp]; apply bool_decide_eq_true in Hp; rewrite Hp; [|done].
-  pose proof (vreach_net_vreach _ _ Hr) as Hr'.
+  pose proof Hr as Hr'.
   destruct (parked_ok_reach HI _ _ Hr' _ _ Hin (or_introl Hp)) as (sid & n & k & z & lt & Hop' & _).
   destruct (net_stop_cancels HI _ _ Hr) with (tid := tid') (t := t') as [Hf|Hc]; [exists tid, t; auto|done|by rewrite Hop'|by rewrite Hp in Hf|].
   by apply bool_decide_eq_false.
@@ -185,17 +169,7 @@ Qed.
 
 (** *** session ends delivered by the network stop clear nothing *)
 Lemma ev_mono cfg s it e : SvInv cfg s → ev_in e s → ev_in e (vstep cfg s it).
-Proof.
-  intros I H. unfold ev_in in *. destruct (trace_step cfg s it I) as [Hx|(sid & -> & E)]; [by eapply tr_ext_mono|].
-  rewrite E. by right.
-Qed.
-Lemma ev_connend_back cfg s it sid : SvInv cfg s → ev_in (SvConnEnd sid) (vstep cfg s it) → ev_in (SvConnEnd sid) s ∨ it = VConnEnd sid.
-Proof.
-  intros I H. unfold ev_in in *. destruct (trace_step cfg s it I) as [Hx|(sid' & -> & E)]; [left; by eapply tr_ext_connend|].
-  rewrite E in H. apply elem_of_cons in H as [[= ->]|H]; auto.
-Qed.
-Lemma ev_connend_new cfg s sid : SvInv cfg s → ev_in (SvConnEnd sid) (vstep cfg s (VConnEnd sid)).
-Proof. intros I. unfold ev_in, vstep. rewrite (vi_not_crashed _ _ I). unfold vemit. simpl. by left. Qed.
+Proof. intros I H. unfold ev_in in *. eapply tr_ext_mono; [apply (trace_step cfg s it I)|done]. Qed.
 
 Lemma run_dsflag cfg tid sid cn s : vrun_thread cfg tid (SThread (SConnEnd sid) VDsFlag cn) s =
   if v_shut s then vset_pc tid VEnd s else vset_pc tid (if sc_noclear cfg then VDsNoClear else VDsDestroy) s.
@@ -212,43 +186,13 @@ Proof.
   autorewrite with svf. split_and!; try done. rewrite thr_vset_pc, lookup_alter, Ht. by eexists.
 Qed.
 
-(** every ConnEnd goroutine is either the consequence of a client's disconnect ([SvConnEnd] in the trace) or was started by
-    the network stop, and then the shutdown flag was already set ([C11_net_after_flag]) and stays set ([shut_step]): it stops at
-    its first step ([C11_keeps_holds_from_inv]); one that got past its first step belongs to a disconnect *)
-Definition connend_inv (s : svstate) : Prop := ∀ tid t sid, v_thr s !! tid = Some t → st_op t = SConnEnd sid →
-  (ev_in (SvConnEnd sid) s ∨ v_shut s = true) ∧ (st_pc t ≠ VDsFlag → st_pc t ≠ VEnd → ev_in (SvConnEnd sid) s).
-Lemma pc_step_connend sid pc pc' : pc_step (SConnEnd sid) pc pc' → pc' ≠ VDsFlag → pc' ≠ VEnd → pc = VDsFlag ∨ (pc ≠ VDsFlag ∧ pc ≠ VEnd).
-Proof. destruct pc; simpl; try done; naive_solver. Qed.
-Lemma connend_inv_reach : T_svinv_reach → ∀ cfg s, vreach cfg s → connend_inv s.
-Proof.
-  intros HI cfg s Hr. pattern s. revert s Hr. apply (vreach_ind_inv cfg); [exact HI|done|].
-  intros s it Hr I IH Hok tid' t' sid Ht' Hop.
-  destruct (thr_step _ _ _ _ _ I Ht') as [(t & Ht & Hop' & Hfin & Hcn & Hpc')|(Hnone & E & Hnew)].
-  - rewrite Hop in Hop'. symmetry in Hop'. destruct (IH _ _ _ Ht Hop') as [IH1 IH2]. split.
-    { destruct IH1; [left; by apply ev_mono|right; by apply shut_step]. }
-    intros Hp1 Hp2. destruct Hpc' as [E|[->|[E1 E2]]].
-    + apply ev_mono; [done|]. apply IH2; congruence.
-    + destruct (run_self _ _ _ _ I Ht) as [E|(pc' & E & Hst)]; rewrite E in Ht'; simplify_eq/=.
-      { apply ev_mono; [done|]. by apply IH2. }
-      rewrite Hop' in Hst. destruct (pc_step_connend _ _ _ Hst Hp1 Hp2) as [Hf|[? ?]]; [|apply ev_mono; [done|]; by apply IH2].
-      destruct IH1 as [?|Hs]; [by apply ev_mono|]. exfalso.
-      rewrite (vstep_run _ _ _ _ (vi_not_crashed _ _ I) Ht) in E. destruct t as [op pc cn]. simpl in *. subst.
-      rewrite run_dsflag, Hs, thr_vset_pc, lookup_alter, Ht in E. simplify_eq/=.
-    + apply ev_mono; [done|]. apply IH2; congruence.
-  - rewrite E. simpl. rewrite Hop. simpl. split; [|done].
-    destruct Hnew as [->|[(sid' & -> & Eo)|[[-> Eo]|[(dt & id & -> & Eo)|(tc & c & sid' & -> & Hc & Hcop & Hcpc & Eo)]]]];
-      [exfalso; unfold vstep in Ht'; rewrite (vi_not_crashed _ _ I), Hop in Ht'; simpl in Ht'; congruence|..]; rewrite Hop in Eo; simplify_eq.
-    + left. by apply ev_connend_new.
-    + right. apply shut_step; [done|]. eapply (C11_net_after_flag_from_inv HI); eauto. by rewrite Hcpc.
-Qed.
+(** every ConnEnd goroutine belongs to a connection that has ended ([SvConnEnd] in the trace: by the client's disconnect, or
+    delivered by the network stop — and then the shutdown flag was already set ([C11_net_after_flag]) and stays set
+    ([shut_step]): the goroutine stops at its first step ([C11_keeps_holds_from_inv])) *)
+Lemma connend_inv_reach : T_svinv_reach → ∀ cfg s, vreach cfg s →
+  ∀ tid t sid, v_thr s !! tid = Some t → st_op t = SConnEnd sid → ev_in (SvConnEnd sid) s.
+Proof. intros HI cfg s Hr tid t sid Ht Hop. eapply (vi_ds_ended _ _ (HI _ _ Hr)); eauto. Qed.
 
-Theorem C11_net_stop_sessions_from_inv : T_svinv_reach → ∀ cfg s tid t sid,
-  vreach cfg s → v_thr s !! tid = Some t → st_op t = SConnEnd sid → ¬ ev_in (SvConnEnd sid) s →
-  v_shut s = true ∧ (st_pc t = VDsFlag ∨ st_pc t = VEnd).
-Proof.
-  intros HI cfg s tid t sid Hr Ht Hop Hne. destruct (connend_inv_reach HI _ _ Hr _ _ _ Ht Hop) as [[?|?] H2]; [done|]. split; [done|].
-  destruct (decide (st_pc t = VDsFlag)); [by left|]. destruct (decide (st_pc t = VEnd)); [by right|]. exfalso. auto.
-Qed.
 Theorem C11_shut_monotone_from_inv : T_svinv_reach → ∀ cfg s it, vreach cfg s → v_shut s = true → v_shut (vstep cfg s it) = true.
 Proof. intros HI cfg s it Hr. apply shut_step. by apply HI. Qed.
 
@@ -373,26 +317,27 @@ Proof.
 Qed.
 
 (** *** a hold whose grant was acknowledged stays listed until something ends it *)
-Definition ended (s : svstate) (sid n k : str) : Prop :=
+(** under no-clear-on-disconnect the end of the session's connection ends no hold *)
+Definition ended (cfg : svcfg) (s : svstate) (sid n k : str) : Prop :=
   (∃ tid' t', v_thr s !! tid' = Some t' ∧ st_op t' = SUnlock n k) ∨
   (∃ tid' t' id tm, v_thr s !! tid' = Some t' ∧ st_op t' = SExpire id ∧ v_theap s !! id = Some tm ∧ tm_k tm = k) ∨
-  ev_in (SvConnEnd sid) s.
+  (sc_noclear cfg = false ∧ ev_in (SvConnEnd sid) s).
 Lemma thr_op_persist cfg s it tid t : SvInv cfg s → v_thr s !! tid = Some t → ∃ t', v_thr (vstep cfg s it) !! tid = Some t' ∧ st_op t' = st_op t.
 Proof.
   intros I Ht. destruct (thr_persist cfg s it tid I) as [t' Ht']; [by eexists|]. exists t'. split; [done|].
   destruct (thr_step _ _ _ _ _ I Ht') as [(t0 & Ht0 & Hop & _)|(Hn & _)]; [|congruence]. congruence.
 Qed.
-Lemma ended_step cfg s it sid n k : SvInv cfg s → ended s sid n k → ended (vstep cfg s it) sid n k.
+Lemma ended_step cfg s it sid n k : SvInv cfg s → ended cfg s sid n k → ended cfg (vstep cfg s it) sid n k.
 Proof.
-  intros I [(tid' & t' & Ht & Hop)|[(tid' & t' & id & tm & Ht & Hop & Hh & Hk)|He]].
+  intros I [(tid' & t' & Ht & Hop)|[(tid' & t' & id & tm & Ht & Hop & Hh & Hk)|[Hnc He]]].
   - left. destruct (thr_op_persist cfg s it _ _ I Ht) as (t'' & ? & ?). exists tid', t''. split; [done|congruence].
   - right. left. destruct (thr_op_persist cfg s it _ _ I Ht) as (t'' & ? & ?). destruct (heap_step cfg s it I _ _ Hh) as (tm' & ? & ? & ? & ?).
     exists tid', t'', id, tm'. split_and!; try done; congruence.
-  - right. right. by apply ev_mono.
+  - right. right. split; [done|]. by apply ev_mono.
 Qed.
 
-Definition listed_inv (s : svstate) : Prop := ∀ tid t sid n k z, v_thr s !! tid = Some t → acquirer t sid n k z →
-  st_pc t = VTmAdd ∨ st_pc t = VFin (SResp true None) → Clock n k z ∈ slist s sid ∨ ended s sid n k.
+Definition listed_inv (cfg : svcfg) (s : svstate) : Prop := ∀ tid t sid n k z, v_thr s !! tid = Some t → acquirer t sid n k z →
+  st_pc t = VTmAdd ∨ st_pc t = VFin (SResp true None) → Clock n k z ∈ slist s sid ∨ ended cfg s sid n k.
 Lemma run_sessadd_entry cfg tid s t sid n k z : acquirer t sid n k z → st_pc t = VSessAdd → Clock n k z ∈ slist (vrun_thread cfg tid t s) sid.
 Proof.
   intros [lt Hop] Hpc. destruct t as [op pc cn]. simpl in *. subst. unfold vrun_thread. simpl.
@@ -402,7 +347,7 @@ Qed.
 Lemma pc_step_listed op pc pc' : is_acq op = true → pc_step op pc pc' → pc' = VTmAdd ∨ pc' = VFin (SResp true None) → pc = VSessAdd ∨ pc = VTmAdd.
 Proof. destruct pc, op; simpl; try done; naive_solver. Qed.
 
-Lemma listed_inv_reach : T_svinv_reach → ∀ cfg s, vreach cfg s → listed_inv s.
+Lemma listed_inv_reach : T_svinv_reach → ∀ cfg s, vreach cfg s → listed_inv cfg s.
 Proof.
   intros HI cfg s Hr. pose proof Hr as Hr0. revert Hr0. pattern s. revert s Hr. apply (vreach_ind_inv cfg); [exact HI|done|].
   intros s it Hr I IH Hok Hr' tid' t' sid n k z Ht' Hacq Hpc. specialize (IH Hr).
@@ -410,7 +355,7 @@ Proof.
   destruct (thr_step _ _ _ _ _ I Ht') as [(t & Ht & Hop' & Hfin & Hcn & Hpc')|(_ & E & _)];
     [|rewrite E in Hpc; simpl in Hpc; destruct Hacq as [? [Ho | Ho]]; rewrite Ho in Hpc; by destruct Hpc].
   assert (Hacq0 : acquirer t sid n k z) by (unfold acquirer in *; by rewrite <-Hop').
-  assert (HA : st_pc t = VTmAdd ∨ st_pc t = VFin (SResp true None) → Clock n k z ∈ slist (vstep cfg s it) sid ∨ ended (vstep cfg s it) sid n k).
+  assert (HA : st_pc t = VTmAdd ∨ st_pc t = VFin (SResp true None) → Clock n k z ∈ slist (vstep cfg s it) sid ∨ ended cfg (vstep cfg s it) sid n k).
   { intros Hp. destruct (IH _ _ _ _ _ _ Ht Hacq0 Hp) as [Hc|He]; [|right; by apply ended_step].
     destruct (sess_step cfg s it I) as [[Hs _]|[(tid0 & ta & sid0 & n0 & k0 & z0 & lt0 & -> & Hta & Hpca & Hopa & Hs & _)|
       [(tid0 & t0 & n0 & k0 & -> & Ht0 & Hwho & Hs & _)|(tid0 & t0 & sid0 & -> & Ht0 & Hop0 & Hpc0 & Hs & _)]]]; rewrite Hs.
@@ -419,8 +364,10 @@ Proof.
     - destruct (is_hold n0 k0 (Clock n k z)) eqn:Hh; [|left; by apply elem_of_list_filter].
       apply is_hold_clock in Hh as [-> ->]. right. apply ended_step; [done|].
       destruct Hwho as [[Ho _]|(id & tm & Ho & _ & Hh & _ & Hk)]; [left; eauto|right; left; eauto 10].
-    - case_decide; [|by left]. subst. right. apply ended_step; [done|]. right. right.
-      eapply (connend_inv_reach HI _ _ Hr); eauto; by rewrite Hpc0. }
+    - case_decide; [|by left]. subst.
+      destruct Hpc0 as [Hpc0|[_ Hemp]]; [|exfalso; unfold slist in Hc; rewrite Hemp in Hc; by apply elem_of_nil in Hc].
+      right. apply ended_step; [done|]. right. right. split; [|eapply (connend_inv_reach HI _ _ Hr); eauto].
+      pose proof (vi_ds_noclear _ _ I _ _ _ Ht0 Hop0) as Q. destruct (sc_noclear cfg); [|done]. rewrite Hpc0 in Q. naive_solver. }
   destruct Hpc' as [E|[->|[_ E]]]; [apply HA; by rewrite <-E| |rewrite E in Hpc; by destruct Hpc].
   destruct (run_self _ _ _ _ I Ht) as [E|(pc' & E & Hst)]; rewrite E in Ht'; simplify_eq/=; [by apply HA|].
   destruct (pc_step_listed _ _ _ Hacq' Hst Hpc) as [Hp|Hp]; [|apply HA; by left].
@@ -430,11 +377,23 @@ Qed.
 Theorem C09_acked_live_from_inv : T_svinv_reach → T_C09_acked_live.
 Proof.
   intros HI cfg s tid t sid n k z Hr Hcfg Ht Hacq Hpc Hnu Hne Hns.
-  destruct (listed_inv_reach HI _ _ Hr _ _ _ _ _ _ Ht Hacq (or_intror Hpc)) as [Hc|[(tid' & t' & Ht' & Hop)|[(tid' & t' & id & tm & Ht' & Hop & Hh & Hk)|He]]].
+  destruct (listed_inv_reach HI _ _ Hr _ _ _ _ _ _ Ht Hacq (or_intror Hpc)) as [Hc|[(tid' & t' & Ht' & Hop)|[(tid' & t' & id & tm & Ht' & Hop & Hh & Hk)|[_ He]]]].
   - by eapply entry_file; [apply (fsync_reach HI _ _ Hr)|..].
   - by destruct (Hnu _ _ Ht').
   - by destruct (Hne _ _ _ _ Ht' Hop Hh).
   - done.
+Qed.
+
+(** no-clear-on-disconnect: a hold whose bookkeeping is done stays listed under its session until its own Unlock or expiry
+    ends it — whatever session ends happen (the positive form of the repaired F-NOCLEAR-RACE) *)
+Theorem C06_noclear_listed_from_inv : T_svinv_reach → T_C06_noclear_listed.
+Proof.
+  intros HI cfg s tid t sid n k z Hr Hnc Ht Hacq Hpc Hnu Hne.
+  destruct (listed_inv_reach HI _ _ Hr _ _ _ _ _ _ Ht Hacq Hpc) as [Hc|[(tid' & t' & Ht' & Hop)|[(tid' & t' & id & tm & Ht' & Hop & Hh & Hk)|[Hf _]]]].
+  - by apply entry_of_slist.
+  - by destruct (Hnu _ _ Ht').
+  - by destruct (Hne _ _ _ _ Ht' Hop Hh).
+  - congruence.
 Qed.
 
 (** *** the image never lists more live holds of a lock than its size *)
@@ -523,56 +482,30 @@ Proof.
   eapply (C09_zombies_in_flight_from_inv HI); [done| |done]. apply entry_of_slist. eapply file_entry; eauto using fsync_reach.
 Qed.
 
-(** ** why [vreach_net]: a Lock call issued after the network stop parks uncancelled *)
+(** ** why [sitem_ok] asks for [net_open]: a Lock call issued after the network stop would park uncancelled
+    (the closer would then wait for it for ever); the schedule is not meaningful — the listeners are closed *)
 Definition late_sched : list sitem :=
   [ VConnect (bs 1); VCall 0 (STry (bs 1) (bs 10) (bs 21) 1 None); VRun 0; VRun 0;
     VSignal; VRun 1000; VRun 1000;
     VCall 1 (SLock (bs 1) (bs 10) (bs 22) 1 None); VRun 1 ].
-Theorem C11_waiters_fail_needs_net : ¬ T_C11_waiters_fail.
+Example C11_late_call_parks_uncancelled :
+  (v_thr (vrun over_cfg late_sched) !! 1%nat) = Some (SThread (SLock (bs 1) (bs 10) (bs 22) 1 None) VWait None).
+Proof. by vm_compute. Qed.
+Example C11_late_call_excluded : ¬ sitem_ok (vrun over_cfg (take 7 late_sched)) (VCall 1 (SLock (bs 1) (bs 10) (bs 22) 1 None)).
 Proof.
-  intros H.
-  destruct (H over_cfg (vrun over_cfg late_sched) 1%nat (SThread (SLock (bs 1) (bs 10) (bs 22) 1 None) VWait None)) as (e & He & _);
-    [apply check_vrun; by vm_compute|by vm_compute|done| |done].
-  exists 1000%nat, (SThread SShutdown VShTimers None). split; [by vm_compute|]. split; [done|by left].
-Qed.
-Theorem C11_no_hang_needs_net : ¬ T_C11_no_hang.
-Proof.
-  intros H.
-  destruct (H over_cfg (vrun over_cfg (late_sched ++ [VRun 1000])) 1000%nat (SThread SShutdown VShMgr None)) as (tid' & t' & Ht & Hpc & Hb);
-    [apply check_vrun; by vm_compute|by vm_compute|done|done|by vm_compute|].
-  apply elem_of_map_to_list in Ht. vm_compute in Ht.
-  repeat (apply elem_of_cons in Ht as [[= -> ->]|Ht]); [..|by apply elem_of_nil in Ht];
-    simpl in Hpc; destruct Hpc as [Hpc|Hpc]; try discriminate Hpc.
-  vm_compute in Hb. discriminate Hb.
+  intros (_ & _ & _ & _ & Hnet). destruct (Hnet 1000%nat (SThread SShutdown VShTimers None)) as [?|?]; [by vm_compute|done|done|done].
 Qed.
 
-(** the premises of the [vreach_net] versions are satisfiable: a parked call at the moment the closer waits for it *)
-Definition net_openb (s : svstate) : bool :=
-  thr_all s (λ t, match st_op t with SShutdown => bool_decide (st_pc t = VShFlag) || bool_decide (st_pc t = VShNet) | _ => true end).
-Lemma net_openb_sound s : net_openb s = true → net_open s.
-Proof.
-  intros H tid t Ht Hop. apply (thr_all_sound _ _ H) in Ht. rewrite Hop in Ht. simpl in Ht.
-  apply orb_prop in Ht as [Ht|Ht]; apply bool_decide_eq_true in Ht; auto.
-Qed.
-Fixpoint check_run_net (cfg : svcfg) (s : svstate) (sch : list sitem) : bool :=
-  match sch with
-  | [] => true
-  | it :: r => sitem_okb s it && match it with VCall _ _ => net_openb s | _ => true end && check_run_net cfg (vstep cfg s it) r
-  end.
-Lemma check_run_net_sound cfg sch s : vreach_net cfg s → check_run_net cfg s sch = true → vreach_net cfg (fold_left (vstep cfg) sch s).
-Proof.
-  revert s. induction sch as [|it r IH]; intros s Hr H; [done|]. simpl in *. apply andb_prop in H as [H H3]. apply andb_prop in H as [H1 H2].
-  apply IH; [|done]. constructor; [done|]. split; [by apply sitem_okb_sound|]. destruct it; try done. by apply net_openb_sound.
-Qed.
+(** the premises of [T_C11_waiters_fail] / [T_C11_no_hang] are satisfiable: a parked call at the moment the closer waits for it *)
 Definition park_sched : list sitem :=
   [ VConnect (bs 1); VCall 0 (STry (bs 1) (bs 10) (bs 21) 1 None); VRun 0; VRun 0;
     VCall 1 (SLock (bs 1) (bs 10) (bs 22) 1 None); VRun 1;
     VSignal; VRun 1000; VRun 1000; VRun 1000 ].
-Example C11_net_premises_satisfiable : ∃ cfg s tid t tc c,
-  vreach_net cfg s ∧ v_thr s !! tid = Some t ∧ st_pc t = VWait ∧
+Example C11_premises_satisfiable : ∃ cfg s tid t tc c,
+  vreach cfg s ∧ v_thr s !! tid = Some t ∧ st_pc t = VWait ∧
   v_thr s !! tc = Some c ∧ st_op c = SShutdown ∧ st_pc c = VShMgr ∧ sv_blocked s tc = true.
 Proof.
   exists over_cfg, (vrun over_cfg park_sched), 1%nat, (SThread (SLock (bs 1) (bs 10) (bs 22) 1 None) VWait (Some ECtxCanceled)),
     1000%nat, (SThread SShutdown VShMgr None).
-  split; [apply check_run_net_sound; [constructor|by vm_compute]|]. split_and!; by vm_compute.
+  split; [apply check_vrun; by vm_compute|]. split_and!; by vm_compute.
 Qed.
